@@ -489,6 +489,17 @@ def oracle_api(run):
     for ra, rb in [([1e-6, 1e-6], [2e-6, 2e-6]), ([1e-6, 1e-6], [0, 0]),
                    ([2e-6, 2e-6], [0.0, 0.0]), ([-1e-6, 1e-6], [2e-6, 2e-6])]:
         differ("range_x", ra, rb, extra=dict(optimal_fit_edelta=True))
+    # the plateau-search flag in its other true representations (1,
+    # numpy.bool_): same don't-cares, same sensitivities, same hash as True
+    for tag, flag in (("1", 1), ("numpy.bool_", np.bool_(True))):
+        same(f"plateau flag {tag} hashes like True",
+             _base=dict(optimal_fit_edelta=True, range_x=[-1e-6, 1e-6]),
+             optimal_fit_edelta=flag, range_x=[-1e-6, 1e-6])
+        same(f"range_x[0] dontcare with plateau flag {tag}",
+             _base=dict(optimal_fit_edelta=flag, range_x=[-1e-6, 1e-6]),
+             optimal_fit_edelta=flag, range_x=[-2e-6, 1e-6])
+        differ("optimal_fit_num_samples", 8, 9,
+               extra=dict(optimal_fit_edelta=flag, range_x=[-1e-6, 1e-6]))
     same("range_x[0] dontcare with plateau search (coinciding bounds)",
          _base=dict(optimal_fit_edelta=True, range_x=[0, 1e-6]),
          optimal_fit_edelta=True, range_x=[1e-6, 1e-6])
